@@ -918,8 +918,10 @@ def plan(prop, tier, seed, known):
         for i in range(n):
             jobs.append(seq_job("recycle%d" % i, seed * 100 + i, "recycle", 4 if q else 8, 250 if q else 400, av, disk=6000))
         jobs.append(probe_job(prop, av))
+        # a request that has helped a truncation to its end, held before it locks the file again while the file is filled and cut again
+        jobs.append({"name": "winrelock", "kind": "lin", "also": ["C12"], "driver": ["windows", "-part", "-2", "-parts", "-1", "-seed", "0"]})
         # NoStale: a block cut off and not freed yet never lies below the size again; control: "one block left" taken for "done"
-        jobs += design_jobs("Shrink", ["Shrink"], ["Shrink_all", "Shrink_big"], [("Shrink_slack", "NoStale")], q)
+        jobs += design_jobs("Shrink", ["Shrink"], ["Shrink_all", "Shrink_big"], [("Shrink_slack", "NoStale"), ("Shrink_norecheck", "NoStale")], q)
     elif prop == "C13":
         n = 4 if q else 32
         for i in range(n):
@@ -1070,6 +1072,7 @@ def plan(prop, tier, seed, known):
         for k in range(7):   # third family: the inode number is recycled for a new object inside the victim's lock-free window
             jobs.append({"name": "winrecycle%d" % k, "kind": "lin", "also": ["C08"], "driver": ["windows", "-part", "-2", "-parts", "7", "-seed", str(k)]})
         jobs += fsproto_jobs(q, "C03")
+        jobs += design_jobs("Shrink", [], [], [("Shrink_norecheck", "NoStale")], q)   # getShrink not looking again after it has helped
         jobs += protoreplay_jobs(q, seed)
         jobs += commitwin_jobs(q)
         j = probe_job(prop, av)             # client requests against a file whose truncation the (parked) shrinker has not completed
